@@ -491,6 +491,69 @@ def confirm_hang_in_subprocess(prop_id: str, case: dict,
         os.unlink(path)
 
 
+def run_staggered(env: ReadEnv, ds, specs: list, seed: int, pattern: int,
+                  policy: str = "random", max_steps: int = 300000):
+    """Passes of ONE handle with overlapping, non-nested lifetimes: every spec
+    (iface, split, opts, passes) is a stream of `passes` consecutive complete
+    passes (a finished pass is followed by a fresh iterator while the other
+    streams are still in the middle of theirs); the streams start one after
+    another in seeded order and are advanced alternately by one consumer.
+    Returns ({spec index: [pass, ...]}, error string | None, sched)."""
+    attrs = env.st["attrs"]
+    done: dict = {i: [] for i in range(len(specs))}
+    sc = S.Sched(random.Random(seed), policy=policy, max_steps=max_steps)
+    err = None
+    order = list(range(len(specs)))
+    random.Random(seed ^ 0x51A6).shuffle(order)
+    with sim_bindings(ds), sc:
+        try:
+            its: dict = {}
+            cur: dict = {}
+            left = {i: specs[i][3] for i in order}
+            step = 0
+            started = 0
+            while any(left.values()) or its:
+                # a new stream joins after every few steps
+                if started < len(order) and (step % 3 == 0 or not its):
+                    i = order[started]
+                    started += 1
+                    if left[i] > 0:
+                        its[i] = iter(make_iter(ds, specs[i][0], specs[i][1],
+                                                specs[i][2], None))
+                        cur[i] = []
+                live = sorted(its)
+                if not live:
+                    continue
+                which = live[(pattern >> (step % 30)) % len(live)]
+                step += 1
+                try:
+                    e = next(its[which])
+                    cur[which].append(dsgen.canon(e, attrs))
+                except StopIteration:
+                    done[which].append(cur.pop(which))
+                    del its[which]
+                    left[which] -= 1
+                    if left[which] > 0:
+                        its[which] = iter(make_iter(
+                            ds, specs[which][0], specs[which][1],
+                            specs[which][2], None))
+                        cur[which] = []
+            sc.drain()
+        except S.SimDeadlock as e:
+            err = "deadlock: " + str(e)
+        except S.SimStepLimit as e:
+            err = "no termination: " + str(e)
+        except BaseException as e:  # pylint: disable=broad-except
+            if isinstance(e, (KeyboardInterrupt, SystemExit)):
+                raise
+            from simlib.runner import CaseTimeout
+            if isinstance(e, CaseTimeout):
+                raise
+            # (pyo3's PanicException derives from BaseException)
+            err = f"{type(e).__name__}: {str(e)[:200]}"
+    return done, err, sc
+
+
 def run_interleaved(env: ReadEnv, ds, specs: list, seed: int, pattern: int,
                     policy: str = "random", max_steps: int = 300000):
     """Two (or more) iterators of ONE dataset handle alive at the same time
